@@ -5,6 +5,7 @@ package main
 import (
 	"fmt"
 	"go/types"
+	"strings"
 
 	"golang.org/x/tools/go/ssa"
 )
@@ -105,8 +106,69 @@ func init() {
 		return in.deepCopy(a[0], map[*Value]*Value{})
 	})
 	reg("google.golang.org/protobuf/proto.Equal", func(in *Interp, fn *ssa.Function, a []Value, g *Term) Value {
-		abortf("proto.Equal is not modelled")
-		return nil
+		in.stubLog["model:proto.Equal = structural equality of exported message fields"]++
+		return in.deepEq(fn.Signature.Params().At(0).Type(), a[0], a[1], 0)
+	})
+	// digests as uninterpreted functions of (length, first 12 bytes); longer inputs abort
+	ufDigest := func(name string, outBytes int) Intrinsic {
+		return func(in *Interp, fn *ssa.Function, a []Value, g *Term) Value {
+			var s *Str
+			if sv, ok := a[0].(*Str); ok {
+				s = sv
+			} else {
+				s = in.bstr(a[0])
+			}
+			const maxIn = 12
+			b := in.strBytes(s)
+			if len(b) > maxIn {
+				abortf("%s of more than %d bytes is outside the digest model", name, maxIn)
+			}
+			n := in.strLen(s)
+			args := []*Term{n}
+			for k := 0; k < maxIn; k++ {
+				if k < len(b) {
+					args = append(args, in.ts.Ite(in.ts.Cmp(OpUlt, in.ts.BV(64, uint64(k)), n), b[k], in.ts.BV(8, 0)))
+				} else {
+					args = append(args, in.ts.BV(8, 0))
+				}
+			}
+			in.stubLog["model:"+name+" is an uninterpreted function"]++
+			if outBytes == 0 {
+				return in.ts.UF("uf_"+name, 64, args...)
+			}
+			arr := make(Array, outBytes)
+			for i := range arr {
+				arr[i] = in.ts.UF(fmt.Sprintf("uf_%s_b%d", name, i), 8, args...)
+			}
+			return arr
+		}
+	}
+	reg("crypto/internal/constanttime.boolToUint8", func(in *Interp, fn *ssa.Function, a []Value, g *Term) Value {
+		return in.ts.Ite(a[0].(*Term), in.ts.BV(8, 1), in.ts.BV(8, 0))
+	})
+	reg("crypto/sha256.Sum256", ufDigest("sha256", 32))
+	reg("github.com/cespare/xxhash/v2.Sum64", ufDigest("xxhash", 0))
+	reg("github.com/cespare/xxhash/v2.Sum64String", ufDigest("xxhash", 0))
+	// crypto/rand: fresh symbolic bytes
+	fillRand := func(in *Interp, sl *SliceV, g *Term) {
+		for i := 0; i < in.maxLen(sl); i++ {
+			in.store(in.elemPtr(sl, i), in.fresh("crand", 8), g)
+		}
+		in.stubLog["model:crypto/rand yields arbitrary bytes"]++
+	}
+	reg("crypto/rand.Read", func(in *Interp, fn *ssa.Function, a []Value, g *Term) Value {
+		sl := a[0].(*SliceV)
+		fillRand(in, sl, g)
+		return Tuple{sl.n, Iface{}}
+	})
+	reg("io.ReadFull", func(in *Interp, fn *ssa.Function, a []Value, g *Term) Value {
+		itf, _ := a[0].(Iface)
+		if itf.t != nil && !strings.Contains(itf.t.String(), "crypto/rand") {
+			abortf("io.ReadFull on %s is not modelled", itf.t)
+		}
+		sl := a[1].(*SliceV)
+		fillRand(in, sl, g)
+		return Tuple{sl.n, Iface{}}
 	})
 	// rand
 	reg("math/rand.Intn", func(in *Interp, fn *ssa.Function, a []Value, g *Term) Value {
@@ -118,6 +180,88 @@ func init() {
 	reg("math/rand/v2.IntN", intrinsics["math/rand.Intn"])
 	reg("math/rand.Int63n", intrinsics["math/rand.Intn"])
 	reg("math/rand/v2.Int64N", intrinsics["math/rand.Intn"])
+}
+
+// deepEq is structural equality (protobuf bookkeeping fields ignored).
+func (in *Interp) deepEq(t types.Type, a, b Value, depth int) *Term {
+	ts := in.ts
+	if depth > 40 {
+		abortf("deepEq: structure too deep")
+	}
+	if ua, ok := a.(*Union); ok {
+		r := ts.False
+		for _, al := range ua.alts {
+			r = ts.Or(r, ts.And(al.g, in.deepEq(t, al.v, b, depth+1)))
+		}
+		return r
+	}
+	if ub, ok := b.(*Union); ok {
+		r := ts.False
+		for _, al := range ub.alts {
+			r = ts.Or(r, ts.And(al.g, in.deepEq(t, a, al.v, depth+1)))
+		}
+		return r
+	}
+	switch u := t.Underlying().(type) {
+	case *types.Pointer:
+		pa, pb := a.(Ptr), b.(Ptr)
+		if pa.p == nil || pb.p == nil {
+			return ts.Bool(pa.p == nil && pb.p == nil)
+		}
+		if pa.p == pb.p {
+			return ts.True
+		}
+		return in.deepEq(u.Elem(), *pa.p, *pb.p, depth+1)
+	case *types.Struct:
+		sa, sb := a.(Struct), b.(Struct)
+		r := ts.True
+		for i := 0; i < u.NumFields(); i++ {
+			switch u.Field(i).Name() {
+			case "state", "sizeCache", "unknownFields", "_":
+				continue
+			}
+			r = ts.And(r, in.deepEq(u.Field(i).Type(), sa[i], sb[i], depth+1))
+			if r.IsFalse() {
+				return r
+			}
+		}
+		return r
+	case *types.Slice:
+		sa, sb := a.(*SliceV), b.(*SliceV)
+		r := ts.Eq(sa.n, sb.n)
+		m := in.maxLen(sa)
+		if mb := in.maxLen(sb); mb < m {
+			m = mb
+		}
+		for k := 0; k < m && !r.IsFalse(); k++ {
+			e := in.deepEq(u.Elem(), in.elem(sa, k), in.elem(sb, k), depth+1)
+			r = ts.And(r, ts.Implies(ts.Cmp(OpUlt, ts.BV(64, uint64(k)), sa.n), e))
+		}
+		return r
+	case *types.Map:
+		ma, mb := a.(*MapObj), b.(*MapObj)
+		r := ts.Eq(in.mapLen(ma), in.mapLen(mb))
+		if ma != nil {
+			for _, e := range ma.entries {
+				v, ok := in.mapGet(mb, u, e.k)
+				r = ts.And(r, ts.Implies(e.present, ts.And(ok, in.deepEq(u.Elem(), e.v, v, depth+1))))
+			}
+		}
+		return r
+	case *types.Interface:
+		ia, ib := a.(Iface), b.(Iface)
+		if ia.t == nil || ib.t == nil {
+			return ts.Bool(ia.t == nil && ib.t == nil)
+		}
+		if !identicalT(ia.t, ib.t) {
+			return ts.False
+		}
+		if _, isNoop := ia.t.(*noopType); isNoop {
+			return ts.True
+		}
+		return in.deepEq(ia.t, ia.v, ib.v, depth+1)
+	}
+	return in.equal(t, a, b)
 }
 
 // deepCopy copies an object graph (pointers, slices, maps) preserving sharing.
